@@ -2,6 +2,9 @@
 # Self-test: reverse-apply each "fix:" commit of /repo to the working tree (never committed), run the check of the property it
 # repaired, expect a VIOLATION, restore the tree. Usage: lib/selftest_fixes.sh [ID:commit ...]
 cd /verif
+# evidence files are rewritten by every check run: keep the clean-tree evidence and put it back afterwards
+rm -rf build/evidence.keep && cp -r evidence build/evidence.keep
+trap 'rm -rf /verif/evidence && cp -r /verif/build/evidence.keep /verif/evidence' EXIT
 pairs=("$@")
 if [ ${#pairs[@]} -eq 0 ]; then
   pairs=(C01:f71956b C02:942e253 C04:454415d C02:035ef8a C10:f18778e C14:c486d2e C15:799e51d C16:5610a1f C17:ddad393 C17:896f37a C17:988ef59 C19:2972ab6 C12:7e55efc C17:69b2647)
